@@ -1,4 +1,5 @@
 import MemcVerif.Model.Conc
+import MemcVerif.Proofs.Alone
 import MemcVerif.Model.Ops
 import MemcVerif.Proofs.Cmds
 /-!
@@ -102,6 +103,48 @@ theorem C04_contiguous_add (s : MemStore) (now : Nat) (k : Key) (r : Record) :
       rw [h3]
       simp [Cmd.add, memOps, MemStore.get, hg, hx]
 
+/-- **uninterrupted = atomic, for every command kind**: a client whose (at most three) `Cache` calls run back to
+    back — no call of another client in between — performs exactly the one-at-a-time command of the sequential
+    model (`applyOp`: the model the theorems of C01, C02, C05–C08 are about): same store, same answer, and it is
+    finished. So every non-atomic behaviour of add/replace/append/prepend/incr/decr needs a foreign call inside
+    the command's get→set window (the classes of the known findings), and the sequential theorems are theorems
+    about the concurrent model whenever commands do not overlap. -/
+theorem C04_uninterrupted_is_sequential (s : MemStore) (now : Nat) (c : CCmd) :
+    (Thread.runAlone 3 { todo := [c] } s now).1 = (applyOp s now c.toOp).1 ∧
+    (Thread.runAlone 3 { todo := [c] } s now).2.results.map CRes.toRes = [(applyOp s now c.toOp).2] ∧
+    (Thread.runAlone 3 { todo := [c] } s now).2.finished = true := by
+  have gf : ∀ c : CCmd, (∀ k r, c ≠ .set k r) → (∀ k cas, c ≠ .delete k cas) → (∀ ttl, c ≠ .flush ttl) →
+      (Thread.runAlone 3 { todo := [c] } s now).1 = (applyOp s now c.toOp).1 ∧
+      (Thread.runAlone 3 { todo := [c] } s now).2.results.map CRes.toRes = [(applyOp s now c.toOp).2] ∧
+      (Thread.runAlone 3 { todo := [c] } s now).2.finished = true := by
+    intro c h1 h2 h3
+    rw [runAlone_getFirst s now c h1 h2 h3]
+    obtain ⟨e1, e2⟩ := afterGet_seq s now c h1 h2 h3
+    exact ⟨e1, by simp [e2], by simp [Thread.finished]⟩
+  cases c with
+  | set k r =>
+    rw [runAlone_set]
+    refine ⟨by simp [CCmd.toOp, applyOp], ?_, by simp [Thread.finished]⟩
+    simp only [CCmd.toOp, applyOp, List.map]
+    cases (s.set now k r).2 <;> simp [resOfCas, Res.ofCas, CRes.toRes]
+  | delete k cas =>
+    rw [runAlone_delete]
+    simp only [CCmd.toOp, applyOp_delete, List.map]
+    refine ⟨trivial, ?_, by simp [Thread.finished]⟩
+    cases (s.delete k cas).2 <;> simp [delRes, CRes.toRes]
+  | flush ttl =>
+    rw [runAlone_flush]
+    simp [CCmd.toOp, applyOp, CRes.toRes, Thread.finished]
+  | get k => exact gf _ (by intros; simp) (by intros; simp) (by intros; simp)
+  | add k r => exact gf _ (by intros; simp) (by intros; simp) (by intros; simp)
+  | replace k r => exact gf _ (by intros; simp) (by intros; simp) (by intros; simp)
+  | append k r => exact gf _ (by intros; simp) (by intros; simp) (by intros; simp)
+  | prepend k r => exact gf _ (by intros; simp) (by intros; simp) (by intros; simp)
+  | delta k h d i inc => exact gf _ (by intros; simp) (by intros; simp) (by intros; simp)
+
+/-- non-vacuity: an incr on a stored counter run alone is the sequential incr -/
+example : (Thread.runAlone 3 { todo := [incr1] } (storeWith (ctr 7)) 0).2.results = [.counter 2 8] := by decide
+
 end Memc
 
 #print axioms Memc.C04_add_add_both_succeed
@@ -110,3 +153,4 @@ end Memc
 #print axioms Memc.C04_replace_resurrects_deleted
 #print axioms Memc.C04_cas_guarded_rmw_partial
 #print axioms Memc.C04_contiguous_add
+#print axioms Memc.C04_uninterrupted_is_sequential
